@@ -177,7 +177,7 @@ def _work(units):
 def run(res, tier):
     ids = ids_for(tier)
     N = 3 if tier == "quick" else 4
-    vs = [(v, None) for v in ew.small_vectors(N)] + [(v, None) for v in ew.families()]
+    vs = [(v, None) for v in ew.small_vectors(N)] + [(v, None) for v in ew.families() + ew.families_large()]
     vs += [([str(t), str(10 - t)], None) for t in range(0, 11)]
     from . import c03 as _c03
 
